@@ -282,11 +282,48 @@ def strip(case):
     return {k: v for k, v in case.items() if k not in ("info", "root", "idx")}
 
 
+def run_two_saves(ctx, res):
+    """Tie of the two-thread model (Model/FsConc.v, theorems C12_stop_during_scheduled_save_*): the slow-save family
+    of harness/impl/slowsave.py (real threads: the scheduled save paused at a point of its file work, messages,
+    stop()) against the model's prediction for saves that exclude each other (`conc ... locked ...`).  When the
+    implementation differs, the model WITHOUT mutual exclusion is asked too (does it explain the observation?)."""
+    from harness.impl import slowsave
+    got = []
+    slowsave.run_all(res, ID, thorough=(ctx.tier == "thorough"), collect=got)
+    if ctx.model is None or not got:
+        return
+    # (no partial or empty file is decoded in these scenarios: the class the decoder would raise does not matter)
+    dmg = {"json": "ValueError", "pickle": "EOFError"}
+    lines, keep = [], []
+    for v, o in got:
+        if "loaded" not in o:
+            continue
+        e = enc_str(dmg[v[1]])
+        lines.append(f"conc {v[1]} locked {v[2]} {e} {e}")
+        lines.append(f"conc {v[1]} unlocked {v[2]} {e} {e}")
+        keep.append((v, o))
+    outs = ctx.model.batch(lines)
+    agree = 0
+    for k, (v, o) in enumerate(keep):
+        locked, unlocked = outs[2 * k].split(" "), outs[2 * k + 1].split(" ")
+        seen = slowsave.loaded_token(o)
+        if locked[0] == seen:
+            agree += 1
+            continue
+        why = ("it is what the model WITHOUT mutual exclusion of saves predicts for this pause point" if unlocked[0] == seen
+               else f"(the model without mutual exclusion predicts {unlocked[0]})")
+        res.violate("two-saves/model-differs", f"{v}: start-up after the stop loaded {seen}, the model of saves that exclude "
+                    f"each other predicts {locked[0]}; {why}", {"kind": "slow-save", "variant": list(v)}, kind="correspondence")
+    res.count("two-saves-model-comparisons", len(keep))
+    res.extra["two_thread_model_tie"] = {"variants": len(keep), "agree_with_locked_model": agree}
+
+
 def run(ctx, res):
     root = str(F.scratch_root())
     try:
         from harness.impl import linkfile
         linkfile.run_all(res, ID)        # the file is a symbolic link: monitors only (outside the one-directory model)
+        run_two_saves(ctx, res)
         _run(ctx, res, root)
     finally:
         F.cleanup_scratch()
@@ -384,6 +421,9 @@ def replay(ctx, case):
     if case.get("kind") == "linked-file":
         from harness.impl import linkfile
         return linkfile.replay(case)
+    if case.get("kind") == "slow-save":
+        from harness.impl import slowsave
+        return slowsave.replay(case, "C14")
     root = str(F.scratch_root())
     try:
         if "sset" not in case:
